@@ -502,6 +502,9 @@ use core::fmt::Debug;
 use core::panic::RefUnwindSafe;
 use core::panic::UnwindSafe;
 
+#[cfg(unimock_verif)]
+use crate::verif::sync::OnceCell;
+#[cfg(not(unimock_verif))]
 use once_cell::sync::OnceCell;
 
 use alloc::Box;
